@@ -318,11 +318,12 @@ def run_link_rules(ctx, prefix, funcs, externals=True, closed_world=False):
     funcs = [f for f in funcs if f is not None]
     for f in funcs:
         ctx.touch(f)
+    small = len(funcs) < 3
     r1 = ctx.rule(prefix + ".B1", "names resolve in the property's call-graph slice", floor=1)
     b1_names(ctx, r1, funcs)
     r2 = ctx.rule(prefix + ".B2", "references into the repository's own modules resolve", floor=0)
     b2_internal_refs(ctx, r2, funcs)
-    r3 = ctx.rule(prefix + ".B3", "resolved intra-package calls match their callee's signature", floor=1)
+    r3 = ctx.rule(prefix + ".B3", "resolved intra-package calls match their callee's signature", floor=0 if small else 1)
     b3_signatures(ctx, r3, funcs)
     if externals:
         r4 = ctx.rule(prefix + ".B4", "references into installed third-party / stdlib modules resolve", floor=0)
